@@ -11,6 +11,9 @@
 (*   L4  Match => PartialMatch                                             *)
 (*   L2  the answers for the same statement with every and/or operand list *)
 (*       reversed (rmatch, rpartial, recorded in the same event) are equal *)
+(*   L3  the answers on the datum whose quantified list holds its elements *)
+(*       in the opposite order (ematch, epartial; recorded by the driver's *)
+(*       forced events over lists of records, a copy elsewhere) are equal  *)
 (* (nested statements over missing data are constrained by the order /     *)
 (* monotonicity laws, which the replay checks on real results).            *)
 (* The code-shaped Shape4 is re-checked against Eval4 as an invariant.     *)
@@ -51,6 +54,7 @@ Accepts(e) ==
   /\ SelsOK(e.st)
   /\ e.match => e.partial
   /\ e.rmatch = e.match /\ e.rpartial = e.partial      \* L2: same statement, every operand list reversed
+  /\ e.ematch = e.match /\ e.epartial = e.partial      \* L3: same statement, the elements under all / any visited in the opposite order
   /\ (AllResolve(e.st, e.data) /\ r # "DC") => (e.match = Passes(r) /\ e.partial = PPasses(r))
   /\ (Unamb(e.st, e.data) /\ r = "ND")  => (~e.match /\ e.partial)
   /\ (Unamb(e.st, e.data) /\ r = "OND") => e.match
